@@ -131,6 +131,8 @@ def run(ctx):
                         with quiet(): P, B = tri.tridiagonalize(An)
                     except Exception as e: viol(f'C08:tridiagonalize:raises:{cls}{suffix}', f'tridiagonalize raised {e!r} on a Hermitian matrix', inp); P = None
                     finally: tri.householder_matrix = orig_hm
+                    if P is not None and not cm.all_finite(P, B):
+                        viol(f'C08:tridiagonalize:nonfinite:{cls}{suffix}', 'tridiagonalize returned NaN / inf', inp); P = None
                     if P is not None:
                         eu = max(fro(mmq(hq(P), P) - utils.quat_eye(n)), fro(mmq(P, hq(P)) - utils.quat_eye(n)))
                         es = fro(mmq(mmq(P, An), hq(P)) - B) / sc if fro(An) > 0 else fro(B)
@@ -149,6 +151,7 @@ def run(ctx):
                     with quiet(): lam, V = eig.quaternion_eigendecomposition(An)
                 except Exception as e: viol(f'C08:eigen:raises:{cls}{suffix}', f'quaternion_eigendecomposition raised {e!r} on a Hermitian matrix', inp); continue
                 lam = np.asarray(lam)
+                if not cm.all_finite(lam, V): viol(f'C08:eigen:nonfinite:{cls}{suffix}', 'eigendecomposition returned NaN / inf', inp); continue
                 D = np.zeros((n, n), dtype=np.quaternion)
                 for i in range(n): D[i, i] = quaternion.quaternion(float(lam[i].real), 0, 0, 0)
                 ev = max(fro(mmq(hq(V), V) - utils.quat_eye(n)), fro(mmq(V, hq(V)) - utils.quat_eye(n)))
